@@ -119,6 +119,12 @@ func newHostDirs() *hostDirs {
 		if err := os.WriteFile(filepath.Join(h.slots[j], "f"), []byte(fmt.Sprintf("S%dab%dcd%def%dgh", j, j, j, j)), 0o644); err != nil {
 			fatalf("write: %v", err)
 		}
+		// different file names per slot (a0..a5 / b0..b5 / c0..c5): what `ls` lists identifies the mount
+		for k := 0; k < 6; k++ {
+			if err := os.WriteFile(filepath.Join(h.slots[j], fmt.Sprintf("%c%d", 'a'+j, k)), nil, 0o644); err != nil {
+				fatalf("write: %v", err)
+			}
+		}
 	}
 	return h
 }
@@ -191,6 +197,8 @@ func newWorld(c cfg, dirs *hostDirs, loneSlot int) *world {
 	nrt := 1
 	switch c.RT {
 	case "one":
+	case "separate":
+		nrt = 2 // two runtimes with nothing in common
 	case "cache-mem":
 		nrt = 2
 		w.caches = []wazero.CompilationCache{wazero.NewCompilationCache()}
